@@ -126,7 +126,12 @@ func (r requester) Receive(ctx *actor.ReceiveContext) {
 		if c.Tmo {
 			opts = append(opts, actor.WithRequestTimeout(time.Microsecond))
 		}
-		call := ctx.Request(to, &Work{Rq: rq}, opts...)
+		var call actor.RequestCall
+		if rq%2 == 0 { // every second request goes through the name-resolving entry point
+			call = ctx.RequestName(to.Name(), &Work{Rq: rq}, opts...)
+		} else {
+			call = ctx.Request(to, &Work{Rq: rq}, opts...)
+		}
 		if call == nil {
 			what := "error"
 			if err := actor.VerifContextErr(ctx); errors.Is(err, gerrors.ErrReentrancyInFlightLimit) {
